@@ -19,9 +19,9 @@ HARNESSES = {
     "C01": [
         H("c01_strategies_info_accessors", "lib", "C01.K.StrategiesInfo", complete=True),
         H("playernum_ind", "lib", "K.playernum_ind", complete=True),
-        H("c01_expected_chance_tree", "lib", "C01.K.expected.chance_tree", tier="thorough", timeout=3600,
+        H("c01_expected_chance_tree", "lib", "C01.K.expected.chance_tree", tier="experimental", timeout=3600,
           bounded="ONE concrete 6-node tree with nested chance below a mixed action; probabilities from small dyadic sets"),
-        H("c01_get_info_recall_tree", "lib", "C01.K.get_info.recall_tree", tier="thorough", timeout=3600,
+        H("c01_get_info_recall_tree", "lib", "C01.K.get_info.recall_tree", tier="experimental", timeout=3600,
           bounded="ONE concrete 7-node perfect-recall tree; every profile with probabilities in {0, 1/2, 1}"),
     ],
     "C13": [
@@ -98,7 +98,7 @@ HARNESSES = {
         H("c08_discount_average_strat_n3", "data", "C08.K.discount_average_strat", bounded=B3, tier="thorough", timeout=1800),
     ],
     "C06": [
-        H("c06_thread_threshold_reach", "vanilla", "C06.K.thread_threshold.reach", tier="thorough", timeout=7200,
+        H("c06_thread_threshold_reach", "vanilla", "C06.K.thread_threshold.reach", tier="experimental", timeout=7200,
           bounded="root decision node with three terminal children, target 3; strategy entries any f64 in [0,1]"),
     ],
     "C09": [
